@@ -233,6 +233,10 @@ class SInt:
     def __pos__(self):
         return self
 
+    def _table(self):
+        """this value as a lookup table over one small-range variable, if it has that shape (else None)"""
+        return table_of_linear(self)
+
     def _posconst(self, o):
         if not isinstance(o, int) or isinstance(o, bool) or o <= 0:
             raise Unsupported('division of a symbolic int by %r' % (o,))
@@ -240,10 +244,18 @@ class SInt:
 
     def __floordiv__(self, o):
         # z3 integer division with a positive divisor is floor division, as in Python
-        return mk_int(self.t / self._posconst(o))
+        k = self._posconst(o)
+        tb = self._table()
+        if tb is not None:
+            return tb.map(lambda v: v // k, self.t / k)
+        return mk_int(self.t / k)
 
     def __mod__(self, o):
-        return mk_int(self.t % self._posconst(o))
+        k = self._posconst(o)
+        tb = self._table()
+        if tb is not None:
+            return tb.map(lambda v: v % k, self.t % k)
+        return mk_int(self.t % k)
 
     def __divmod__(self, o):
         return (self // o, self % o)
@@ -282,6 +294,143 @@ class SInt:
 
     def __repr__(self):
         return 'SInt(%s)' % (self.t,)
+
+
+# ------------------------------------------------------------------ lookup tables over one small-range variable
+#
+# div / mod of a term that depends on a single variable with a small known range (a decimal digit) is replaced by a canonical
+# lookup table If(x == lo, v0, If(x == lo+1, v1, ...)).  Every such replacement is a lemma "for all x in [lo, hi]: original == table"
+# that is discharged by the solver once (and cached); two computations that agree digit-wise then yield syntactically equal terms,
+# which is what makes sums over 20-40 digits tractable (the residual query no longer depends on the digits).
+
+BOUNDS = {}            # z3 variable name -> (lo, hi), filled by Explorer.fresh_int
+LEMMAS = {'proved': 0, 'seconds': 0.0}
+_LEMMA_CACHE = {}
+
+
+class STab(SInt):
+    __slots__ = ('var', 'lo', 'vals')
+
+    def __init__(self, var, lo, vals):
+        self.var = var
+        self.lo = lo
+        self.vals = list(vals)
+        t = z3.IntVal(self.vals[-1])
+        for i in range(len(self.vals) - 2, -1, -1):
+            t = z3.If(var == lo + i, z3.IntVal(self.vals[i]), t)
+        SInt.__init__(self, t)
+
+    def _table(self):
+        return self
+
+    def map(self, fn, original=None):
+        new = STab(self.var, self.lo, [fn(v) for v in self.vals])
+        if original is not None:
+            prove_table_lemma(self.var, self.lo, self.lo + len(self.vals) - 1, original, new.t)
+        return _norm_table(new)
+
+    def _same(self, o):
+        return isinstance(o, STab) and o.var.eq(self.var) and o.lo == self.lo and len(o.vals) == len(self.vals)
+
+    def __add__(self, o):
+        if isinstance(o, int) and not isinstance(o, bool):
+            return self.map(lambda v: v + o)
+        if self._same(o):
+            return _norm_table(STab(self.var, self.lo, [a + b for a, b in zip(self.vals, o.vals)]))
+        return SInt.__add__(self, o)
+    __radd__ = __add__
+
+    def __sub__(self, o):
+        if isinstance(o, int) and not isinstance(o, bool):
+            return self.map(lambda v: v - o)
+        if self._same(o):
+            return _norm_table(STab(self.var, self.lo, [a - b for a, b in zip(self.vals, o.vals)]))
+        return SInt.__sub__(self, o)
+
+    def __mul__(self, o):
+        if isinstance(o, int) and not isinstance(o, bool):
+            return self.map(lambda v: v * o)
+        return SInt.__mul__(self, o)
+    __rmul__ = __mul__
+
+
+def _norm_table(tb):
+    """constant and linear tables go back to plain terms (so that equal functions have equal terms)"""
+    v = tb.vals
+    if len(set(v)) == 1:
+        return v[0]
+    if len(v) >= 2:
+        c = v[1] - v[0]
+        if all(v[i + 1] - v[i] == c for i in range(len(v) - 1)):
+            return mk_int(c * tb.var + (v[0] - c * tb.lo))
+    return tb
+
+
+def prove_table_lemma(var, lo, hi, original, table):
+    key = (original.get_id(), table.get_id(), lo, hi)
+    if key in _LEMMA_CACHE:
+        return
+    t0 = time.time()
+    s = z3.Solver()
+    s.set('timeout', 20000)
+    s.add(var >= lo, var <= hi, original != table)
+    r = s.check()
+    LEMMAS['seconds'] += time.time() - t0
+    if r != z3.unsat:
+        raise Inconclusive('table lemma not proved (%s): %s' % (r, original))
+    LEMMAS['proved'] += 1
+    _LEMMA_CACHE[key] = (original, table)
+
+
+def _lin1(t):
+    """t == c*x + b for a single uninterpreted integer constant x ?  -> (x, c, b) or None"""
+    if z3.is_int_value(t):
+        return None
+    k = t.decl().kind()
+    if k == z3.Z3_OP_UNINTERPRETED and t.num_args() == 0:
+        return (t, 1, 0)
+    if k == z3.Z3_OP_MUL and t.num_args() == 2:
+        a, b = t.arg(0), t.arg(1)
+        if z3.is_int_value(a):
+            r = _lin1(b)
+            return None if r is None else (r[0], r[1] * a.as_long(), r[2] * a.as_long())
+        if z3.is_int_value(b):
+            r = _lin1(a)
+            return None if r is None else (r[0], r[1] * b.as_long(), r[2] * b.as_long())
+        return None
+    if k == z3.Z3_OP_ADD:
+        var, c, b = None, 0, 0
+        for i in range(t.num_args()):
+            a = t.arg(i)
+            if z3.is_int_value(a):
+                b += a.as_long()
+                continue
+            r = _lin1(a)
+            if r is None or (var is not None and not r[0].eq(var)):
+                return None
+            var, c, b = r[0], c + r[1], b + r[2]
+        return None if var is None else (var, c, b)
+    return None
+
+
+def table_of_linear(x):
+    r = _lin1(x.t)
+    if r is None:
+        return None
+    var, c, b = r
+    bd = BOUNDS.get(var.decl().name())
+    if bd is None or bd[1] - bd[0] > 40:
+        return None
+    lo, hi = bd
+    return STab(var, lo, [c * v + b for v in range(lo, hi + 1)])
+
+
+def table(x, fn):
+    """canonical lookup table for fn applied to a small-range variable (for reference specifications in harnesses)"""
+    tb = table_of_linear(x) if isinstance(x, SInt) else None
+    if tb is None:
+        raise Unsupported('table() needs a small-range variable')
+    return tb.map(fn)
 
 
 def s_min(a, b):
@@ -453,6 +602,8 @@ class Explorer:
             self.assume(v >= lo)
         if hi is not None:
             self.assume(v <= hi)
+        if isinstance(lo, int) and isinstance(hi, int):
+            BOUNDS[nm] = (lo, hi)
         return x
 
     def fresh_bool(self, name):
